@@ -354,6 +354,59 @@ theorem logistic_grad_structure (nf : Nat) (x : List (List ℝ)) (y w : List ℝ
 example : HasDerivAt (fun t : ℝ => -logLogistic ((2 + 3 * (t - 1)) * (-1)))
     ((logistic (2 * (-1)) - 1) * (-1) * 3) 1 := logistic_grad_is_derivative_partial 2 3 1 (-1)
 
+/-! ### multinomial
+
+Full statement (not proved as a whole): every entry of `multiLogisticGrad` is the partial derivative
+of `multiLogisticLoss` (penalty on the weight rows only, intercept row = column sums of
+`softmax(H) - Y`).  Proved: the quantity the gradient code calls `prob` IS the row-wise softmax (the
+`1e-15` floor is inactive once the max is taken per row), and the block structure of the result.
+Missing: the derivative of `ln Σ exp` per coordinate carried through the list sums. -/
+
+/-- **`exp(H - log_sum_exp(H))` is the softmax of the row** (for any floor `eps ≤ 1`; the code's is
+`1e-15`) — `multi_logistic_grad` and `predict_probabilities` speak of the same probabilities. -/
+theorem exp_logprob_is_softmax (eps : ℝ) (heps : eps ≤ 1) (a : ℝ) (as : List ℝ) :
+    (a :: as).map (fun h => Real.exp (h - logSumExpRow eps (a :: as))) = softmax (a :: as) := by
+  set m := as.foldl maxS a with hm
+  have hmem : m ∈ a :: as := by
+    rcases foldl_maxS_mem as a with h | h
+    · rw [hm, h]; simp
+    · exact List.mem_cons_of_mem _ h
+  set S := ((a :: as).map fun e => Real.exp (e - m)).sum with hS
+  have hS1 : 1 ≤ S := by
+    have hnn : ∀ x ∈ (a :: as).map (fun e => Real.exp (e - m)), 0 ≤ x := by
+      intro x hx
+      obtain ⟨n, -, rfl⟩ := List.mem_map.mp hx
+      exact (Real.exp_pos _).le
+    have := List.single_le_sum hnn (Real.exp (m - m)) (List.mem_map.mpr ⟨m, hmem, rfl⟩)
+    rw [sub_self, Real.exp_zero] at this
+    exact this
+  have hlse : logSumExpRow eps (a :: as) = Real.log S + m := by
+    simp only [logSumExpRow, maxList]
+    show Real.log (maxS (List.foldl (fun acc e => acc + Real.exp (e - m)) 0 (a :: as)) eps) + m = _
+    rw [foldl_add_exp, zero_add, maxS_eq_max, max_eq_left (le_trans heps hS1)]
+  have hsm : softmax (a :: as) = (a :: as).map (fun n => Real.exp (n - m) / S) := by
+    simp only [softmax, maxList, sumS_eq_sum, List.map_map]
+    rfl
+  rw [hsm, hlse]
+  apply List.map_congr_left
+  intro h _
+  have hSpos : 0 < S := by linarith
+  rw [show h - (Real.log S + m) = (h - m) - Real.log S by ring, Real.exp_sub, Real.exp_log hSpos]
+
+/-- block structure of the multinomial gradient: weight rows `Xᵀ(P - Y) + alpha W`, then one
+intercept row of column sums of `P - Y` without penalty -/
+theorem multi_logistic_grad_structure (eps : ℝ) (nf k : Nat) (x y w : List (List ℝ)) (alpha : ℝ)
+    (hw : w.length = nf + 1) :
+    multiLogisticGrad eps nf k x y alpha w =
+      some ((List.range nf).map (fun j => (List.range k).map fun c =>
+              dotS (col x j) (col (multiDiff eps k x y (w.take nf) ((w.drop nf).headD [])) c) +
+                ((w.take nf).getD j []).getD c 0 * alpha) ++
+            [(List.range k).map fun c => sumS (col (multiDiff eps k x y (w.take nf) ((w.drop nf).headD [])) c)]) := by
+  simp [multiLogisticGrad, splitParams2, hw]
+
+example : ([1, 2, 3] : List ℝ).map (fun h => Real.exp (h - logSumExpRow (1 / 10) [1, 2, 3])) = softmax [1, 2, 3] :=
+  exp_logprob_is_softmax _ (by norm_num) 1 [2, 3]
+
 end Grad
 
 /-! ## Tweedie GLM -/
